@@ -638,7 +638,11 @@ func decodeMessages(sc *scenario, ct string, body []byte, sse bool) string {
 	if len(items) == 0 {
 		return "-"
 	}
-	return strings.Join(items, ";")
+	framing := "nl|" // newline-delimited values
+	if sse {
+		framing = "sse|" // "data:" records
+	}
+	return framing + strings.Join(items, ";")
 }
 
 func (Area) Exec(input string) string {
@@ -717,12 +721,7 @@ func execE2E(sc *scenario) string {
 		}
 		pm = strings.Join(ps, ",")
 	}
-	sse := false
-	for _, a := range sc.acc {
-		if a == "text/event-stream" {
-			sse = true
-		}
-	}
+	sse := strings.HasPrefix(string(body), "data:") // framing as observed (a JSON value never starts like this)
 	ds := decodeStatus(ct, body)
 	dm := "-"
 	if res.StatusCode == 200 && (ct == mimeJSON || ct == mimePB) {
